@@ -250,6 +250,8 @@ def fold(mod, prop_id, tier, seed, results, scratch, t0, args):
         "%s tier=%s seed=%s evaluations=%d distinct=%d shards=%d wall=%.1fs"
         % (prop_id, tier, seed, agg["evaluations"], distinct, len(results), wall)
     )
+    slow = sorted(((r.get("wall_s", 0) or 0, r.get("shard")) for r in results), reverse=True)[:4]
+    print("  slowest shards: " + ", ".join("%s %.0fs" % (n, w) for w, n in slow))
     for m, (e, v) in sorted(known_hit.items()):
         print("KNOWN-FINDING: property=%s %s -- %s (seen %d times)" % (prop_id, e["mechanism"], e.get("what", "")[:240], agg["violation_counts"].get(v["mechanism"], 0)))
     rc = 0
